@@ -277,3 +277,70 @@ pub fn dump(out: &Outcome) {
     }
     eprintln!("  last sends: {last:?}");
 }
+
+
+// ------------------------------------------------------------------------------------------------
+// L2 legs of other properties over the same scenario engine
+// ------------------------------------------------------------------------------------------------
+
+/// C01 (stream data reliable / in order / exactly once) and C07 (packet numbers strictly increase)
+/// observed on whole connections under bounded faults.
+pub fn run_leg(args: &Args, rep: &mut Report, prop: &str) {
+    rep.rule = "whole-stack scenario under bounded faults (see C02); distinct = distinct (fault label, job list, params); non-trivial = at least one fault applied".into();
+    let eval = |case: &Case, out: &Outcome| -> Vec<oracle::Finding> {
+        let mut f = vec![];
+        match prop {
+            "C01" => {
+                f.extend(oracle::check_data(out));
+                let ver = evaluate(case, out);
+                f.extend(ver.findings.into_iter().filter(|(s, _)| s.starts_with("liveness.bounded")));
+            }
+            "C07" => {
+                let (pf, _) = oracle::check_packet_numbers(out, false, true);
+                f.extend(pf);
+            }
+            _ => {}
+        }
+        f.extend(oracle::check_panics(out));
+        f
+    };
+    if let Some(path) = args.get("replay") {
+        let v: Value = serde_json::from_str(&std::fs::read_to_string(path).unwrap()).unwrap();
+        let v = if v.get("replay").is_some() { v["replay"].clone() } else { v };
+        let case = Case::from_json(&v);
+        let out = scenario::run(&case.spec);
+        rep.evaluations += 1;
+        for (sig, what) in eval(&case, &out) {
+            rep.violation(format!("{prop}.l2.{sig}"), what, case.to_json());
+        }
+        return;
+    }
+    let thorough = args.get("tier") == Some("thorough");
+    let shard = args.u64("shard", 0);
+    let n = args.budget(if thorough { 200 } else { 6 });
+    let mut rng = Rng::new(args.seed() ^ 0xc02 ^ vcore::fnv_str(prop)).fork(shard);
+    for i in 0..n {
+        let sseed = rng.next_u64();
+        let mut r = rng.fork(i);
+        let case = gen_bounded(&mut r, sseed);
+        let out = scenario::run(&case.spec);
+        rep.evaluations += 1;
+        let ver = evaluate(&case, &out);
+        observe(rep, &case, &out, &ver);
+        let faults = out.net.with(|n| n.n_dropped + n.n_dup + n.n_trunc + n.n_flip + n.n_reordered);
+        if faults > 0 {
+            rep.distinct(vcore::fnv_str(&case.to_json().to_string()));
+        }
+        if prop == "C07" {
+            // distinct (vantage, space) packet-number sequences observed
+            let (_, st) = oracle::check_packet_numbers(&out, false, true);
+            rep.add("l2_packet_sent_events_checked", st.sent);
+        }
+        if i == 0 {
+            rep.sample(json!({"leg": "l2", "label": case.label, "jobs": case.spec.to_json()["jobs"], "net": out.net.stats_json()}));
+        }
+        for (sig, what) in eval(&case, &out) {
+            rep.violation(format!("{prop}.l2.{sig}"), what, case.to_json());
+        }
+    }
+}
